@@ -248,7 +248,7 @@ func init() {
 		o := prog.DefaultOpts()
 		o.EndPct, o.MaxColl = 60, 4
 		o.ParMatrix = true
-		g := genPart(c, "C10", 0, c.pick(120, 4000), o, 1, "ok,fault,one", c.pick(8, 12), false,
+		g := genPart(c, "C10", 0, c.pick(120, 4000), o, 1, "ok,fault,one,bigend", c.pick(8, 12), false,
 			"Parallel with at least two functions or at least two collection elements (exactly-once multiset of (index,element)/(key,value) tokens; End hook after every element call, never after a failed one)")
 		both(c, nil, g)
 	}
